@@ -110,7 +110,8 @@ def lint(project, source, filename=None, debug=False):
             owner = owner.parent
         if isinstance(owner, IGNORED_SCOPES):
             if isinstance(name, ImportedName):
-                if name.module == '__future__':
+                if name.module == '__future__' and name.mname:
+                    # ('import __future__' is an import like any other)
                     continue
                 if name.name in qualified_imports:
                     continue
